@@ -8,6 +8,7 @@ pub mod c11;
 pub mod c13;
 pub mod wrap;
 pub mod c14;
+pub mod c15;
 pub mod c19;
 pub mod c20;
 pub mod contract;
@@ -30,6 +31,7 @@ pub fn dispatch(id: &str, args: &RunArgs) -> i32 {
         "C06" => run_prop(&wrap::C06, args),
         "C07" => run_prop(&wrap::C07, args),
         "C08" => run_prop(&wrap::C08, args),
+        "C15" => run_prop(&c15::C15, args),
         "C18" => run_prop(&wrap::C18, args),
         "C12" => run_prop(&wrap::C12, args),
         "C09" => run_prop(&wrap::C09, args),
